@@ -5,7 +5,7 @@ CONSTANTS
   Classes = {"MA", "MB"}
   InitStreams <- InitStreamsOne
   ApplyCfgs <- ApplyCfgsMap
-  Lifts = {"none", "remat"}
+  Lifts = {"none", "remat", "jit"}
   Separator = TRUE
   Hist = TRUE
   Alphabet <- AlphabetBlock
